@@ -140,12 +140,14 @@ Theorem C04_text_with_attributes :
   forall (jsx : bool) (env : cenv) (max_repeat : option N) (e : selem),
     selem_ok e -> jsx_ok jsx e -> ce_text env = WNone ->
     parse_abbr jsx env max_repeat (elem_text e) =
-      Ok [ANode (Some (se_name e)) (elem_text_value e) None (attrs_opt (written_mentions e)) [] false].
+      Ok [ANode (Some (se_name e)) (elem_text_value e) None (attrs_opt (written_mentions e)) [] (se_close e)].
 Proof. exact element_attributes_text. Qed.
 Print Assumptions C04_text_with_attributes.
 
 (* ... and through the whole pipeline (markup.parse + HTML formatter): expand writes
-   <name attr...>TEXT</name>  with TEXT = the payload, escapes resolved, nothing else between the tags.
+   <name attr...>TEXT</name>  with TEXT = the payload, escapes resolved, nothing else between the tags
+   ([leaf_tail c tag sc v] = `>` ++ text of v ++ `</tag>` whenever the element has a non-empty text, also
+   when it carries the self-closing mark `/`: C04_leaf_tail_text).
    Hypotheses as in C03_expand_element_text; [value_inline]: the text has no line break and does not
    start with a block-level tag (such text is laid out on its own lines: C12). *)
 Theorem C04_expand_text_element :
@@ -162,9 +164,16 @@ Theorem C04_expand_text_element :
     value_inline c (elem_text_value e) ->
     expand_markup_str x (elem_text e) =
       Ok (c_lt :: tag_name c (se_name e) ++ attrs_text_out c attrs
-          ++ [c_gt] ++ elem_out_text e ++ [c_lt; c_slash] ++ tag_name c (se_name e) ++ [c_gt]).
+          ++ leaf_tail c (tag_name c (se_name e)) (se_close e) (elem_text_value e)).
 Proof. exact expand_element_text. Qed.
 Print Assumptions C04_expand_text_element.
+
+Theorem C04_leaf_tail_text :
+  forall (c : oconfig) (tag : str) (sc : bool) (v0 : vtok) (v : list vtok),
+    leaf_tail c tag sc (Some (v0 :: v)) =
+      [c_gt] ++ concat (map tok_text (v0 :: v)) ++ [c_lt; c_slash] ++ tag ++ [c_gt].
+Proof. exact leaf_tail_text. Qed.
+Print Assumptions C04_leaf_tail_text.
 
 (* placeholder_total: `$#` always yields a string -- the line of the closest implicit repeater, the
    whole text when there is none -- never None / an internal error *)
@@ -309,15 +318,15 @@ Proof.
   split; vm_compute; reflexivity.
 Qed.
 
-(* non-vacuity of text_with_attributes / expand: p.c[t=1]{a>b*3 \{x\} (y)} *)
+(* non-vacuity of text_with_attributes / expand: p.c[t=1]{a>b*3 \{x\} (y)}/  (the `/` mark does not drop the text) *)
 Example C04_text_attr_nonvacuous :
   let x := mkX (mkMConfig (S "html") [] [] WNone None None false None [] false false)
                (mkOconfig (mkOfmt [] [] []) [] [] (S "double") true false [] [] 0 false [] (S "html") [] false [] [] []
                           false None None) in
   let e := mkSElem (S "p") [PClass (S "c"); PSet [mkSAttr false (S "t") false (SUnq (S "1"))]]
-                   (Some (S "a>b*3 \{x\} (y)")) in
+                   (Some (S "a>b*3 \{x\} (y)")) true in
   selem_ok e /\ value_inline (xc_o x) (elem_text_value e) /\
-  elem_text e = S "p.c[t=1]{a>b*3 \{x\} (y)}" /\
+  elem_text e = S "p.c[t=1]{a>b*3 \{x\} (y)}/" /\
   expand_markup_str x (elem_text e) = Ok (S "<p class=""c"" t=""1"">a>b*3 {x} (y)</p>").
 Proof.
   cbv zeta. split; [split; [split; [discriminate|repeat constructor]|split; [repeat constructor; try discriminate|reflexivity]]|].
